@@ -258,6 +258,8 @@ TEMPLATES = [
     ("username noc secret sha512 {}", ALL, "keep"),
     ("username Someone privilege 15 password 7 {}", ALL, "keep"),
     ("enable secret 5 {}", ALL, "keep"),
+    ("enable secret level 15 5 {}", ALL, "keep"),
+    ("enable secret level 7 {}", NOT_NUM, "keep"),
     ("enable secret {}", NOT_NUM, "keep"),
     ("ip ftp password 7 {}", ALL, "keep"),
     (" ip ospf authentication-key 0 {}", ALL, "keep"),
